@@ -43,12 +43,14 @@ pub struct Spec {
     pub nibble: u32,
     pub layout: u8,
     pub dirty: bool,
+    /// FAT32: the information sector carries no free count (0xFFFFFFFF) - statistics have to recount the table
+    pub count_unknown: bool,
 }
 
 impl Spec {
     pub fn name(&self) -> String {
         format!(
-            "fat{}-{}x{}-{}f-{}-eoc{}-nib{:x}-layout{}-{}",
+            "fat{}-{}x{}-{}f-{}-eoc{}-nib{:x}-layout{}-{}{}",
             self.width,
             self.bps,
             self.spc,
@@ -57,7 +59,8 @@ impl Spec {
             if self.eoc_high { "hi" } else { "lo" },
             self.nibble,
             self.layout,
-            if self.dirty { "dirty" } else { "clean" }
+            if self.dirty { "dirty" } else { "clean" },
+            if self.count_unknown { "-nocount" } else { "" }
         )
     }
 }
@@ -84,10 +87,12 @@ pub fn grid(th: bool) -> Vec<Spec> {
             };
             for ext_flags in modes {
                 for nibble in if width == 32 { vec![0u32, 0xA] } else { vec![0] } {
-                    for eoc_high in [false, true] {
-                        for layout in 0..4u8 {
-                            for dirty in [false, true] {
-                                v.push(Spec { width, bps, spc, nfats, ext_flags, eoc_high, nibble, layout, dirty });
+                    for count_unknown in if width == 32 { vec![false, true] } else { vec![false] } {
+                        for eoc_high in [false, true] {
+                            for layout in 0..4u8 {
+                                for dirty in [false, true] {
+                                    v.push(Spec { width, bps, spc, nfats, ext_flags, eoc_high, nibble, layout, dirty, count_unknown });
+                                }
                             }
                         }
                     }
@@ -96,8 +101,9 @@ pub fn grid(th: bool) -> Vec<Spec> {
         }
     }
     if !th {
-        // quarter of the grid: every 4th point, shifted per geometry so that all values of every dimension occur
-        v = v.into_iter().enumerate().filter(|(i, _)| i % 4 == (i / 16) % 4).map(|(_, s)| s).collect();
+        // quarter of the grid, chosen so that every pair of values of two different dimensions still occurs together
+        // (checked by enumeration when the filter was written)
+        v = v.into_iter().enumerate().filter(|(i, _)| (i + i / 4 + i / 16 + i / 64) % 4 == 0).map(|(_, s)| s).collect();
     }
     v
 }
@@ -134,6 +140,15 @@ pub fn build(spec: &Spec) -> (Vec<u8>, Vec<Gt>, Vec<u32>) {
     ms.root_entries = if spec.width == 32 { 0 } else { 128 };
     if spec.width == 12 {
         ms.clusters = 120;
+    }
+    if spec.width == 32 {
+        // more than 65536 clusters: the last clusters (used by layout 3) need the high word of the first-cluster field
+        ms.clusters = 66_600;
+        if spec.nfats == 3 {
+            // information sector and backup boot sector somewhere else than the usual 1 / 6
+            ms.fsinfo_sector = 2;
+            ms.backup_sector = 9;
+        }
     }
     if spec.width != 32 {
         ms.reserved = 3;
@@ -226,7 +241,8 @@ pub fn build(spec: &Spec) -> (Vec<u8>, Vec<Gt>, Vec<u32>) {
         old[0] = 0xE5;
         root.push(old);
     }
-    root.push(builder::sfn_slot(b"VOL LABEL  ", 0x08, 0, tn(9), 0, 0));
+    // (other systems write the label with the archive bit set as well)
+    root.push(builder::sfn_slot(b"VOL LABEL  ", if spec.layout % 2 == 1 { 0x28 } else { 0x08 }, 0, tn(9), 0, 0));
     // 9: attribute bits
     for (i, (sfn, attr)) in [(b"RDONLY  A  ", 0x01u8), (b"HIDDEN  A  ", 0x02), (b"SYSTEM  A  ", 0x04), (b"ARCHIVE A  ", 0x20), (b"ALLBITS A  ", 0x27), (b"NOBITS  A  ", 0x00)].iter().enumerate() {
         add_sfn(&mut root, &mut gt, "/", sfn, *attr, 0, tn(10 + i as u16), 0, 0, vec![], None);
@@ -288,7 +304,7 @@ pub fn build(spec: &Spec) -> (Vec<u8>, Vec<Gt>, Vec<u32>) {
     }
     b.ballast(&keep);
     b.scribble_inactive();
-    b.set_fsinfo(keep.len() as u32, 0xFFFF_FFFF);
+    b.set_fsinfo(if spec.count_unknown { 0xFFFF_FFFF } else { keep.len() as u32 }, 0xFFFF_FFFF);
     (b.finish(), gt, keep)
 }
 
@@ -365,6 +381,10 @@ fn read_phase(cfg: &Cfg, gt: &[Gt]) -> Vec<(String, String)> {
         if lab != Some(*b"VOL LABEL  ") {
             return Err(("C08/read/label".into(), format!("label in the middle of the root not found: {lab:?}")));
         }
+        let labs = fs.read_volume_label_from_root_dir().map_err(|e| ("C08/read/label-error".to_string(), format!("{:?}", sess::ek(e))))?;
+        if labs.as_deref() != Some("VOL LABEL") {
+            return Err(("C08/read/label-string".into(), format!("label as a string: {labs:?}")));
+        }
         drop(fs);
         Ok(())
     });
@@ -379,6 +399,31 @@ fn read_phase(cfg: &Cfg, gt: &[Gt]) -> Vec<(String, String)> {
         v.push(("C08/read/image-changed-by-reading".into(), format!("{} pages differ after a read-only session", st.borrow().canonical_overlay().len())));
     }
     v
+}
+
+/// statistics of the foreign volume vs the number of clusters the builder left free (a session of its own: when the
+/// count is unknown or the volume dirty the library may store the count it computed)
+fn stats_phase(cfg: &Cfg, free: u32, clusters: u64, cs: usize) -> Vec<(String, String)> {
+    let (st, _d) = new_dev(&cfg.base);
+    let ctr = Rc::new(Cell::new(0u32));
+    let r = sess::guarded(|| -> Result<(u32, u32, u32), String> {
+        let fs = sess::mount(MemDev::new(st.clone()), cfg, &ctr).map_err(|e| format!("mount: {:?}", sess::ek(e)))?;
+        let s = fs.stats().map_err(|e| format!("stats: {:?}", sess::ek(e)))?;
+        let out = (s.free_clusters(), s.total_clusters(), s.cluster_size());
+        fs.unmount().map_err(|e| format!("unmount: {:?}", sess::ek(e)))?;
+        Ok(out)
+    });
+    match r {
+        Err(p) => vec![(format!("C08/stats/panic/{}", panic_class(&p)), p)],
+        Ok(Err(e)) => vec![("C08/stats/failed".into(), e)],
+        Ok(Ok((f, t, c))) => {
+            if f != free || t as u64 != clusters || c as usize != cs {
+                vec![("C08/stats/differ-from-the-generated-volume".into(), format!("library: {f} free of {t} clusters of {c} bytes; generator: {free} free of {clusters} clusters of {cs} bytes"))]
+            } else {
+                vec![]
+            }
+        }
+    }
 }
 
 #[derive(Clone, Debug)]
@@ -598,9 +643,9 @@ fn diff_confined(pre_dev: &DevState, post_dev: &DevState, pre: &Decoded, post: &
         let _ = bps;
     }
     // no new structural findings
-    let pre_f: BTreeSet<&String> = pre.findings.iter().map(|f| &f.sig).collect();
+    let pre_f: BTreeSet<(&String, &String)> = pre.findings.iter().map(|f| (&f.sig, &f.msg)).collect();
     for f in &post.findings {
-        if !pre_f.contains(&f.sig) {
+        if !pre_f.contains(&(&f.sig, &f.msg)) {
             v.push((format!("C08/write/{}/new-finding/{}", m.name, f.sig), f.msg.clone()));
         }
     }
@@ -752,6 +797,10 @@ pub fn run(tier: &str) -> i32 {
             for (sig, msg) in read_phase(&cfg, &gt) {
                 out.push((sig, msg, name.clone()));
             }
+            evals.fetch_add(1, Ordering::Relaxed);
+            for (sig, msg) in stats_phase(&cfg, keep.len() as u32, g.clusters, cs) {
+                out.push((sig, msg, name.clone()));
+            }
             for m in &muts {
                 evals.fetch_add(1, Ordering::Relaxed);
                 for (sig, msg) in write_phase(&cfg, &gt, m, cs) {
@@ -782,7 +831,7 @@ pub fn run(tier: &str) -> i32 {
         "volumes_skipped_by_deadline": ncap,
         "mutations_per_volume": muts.iter().map(|m| m.name).collect::<Vec<_>>(),
         "explanation": "states = foreign volumes in the (tier's) product grid, each an initial state built by the independent builder with its ground truth; transitions = 1 read session + 10 single mutations from every initial state (depth-1 exploration), all executed on the real crate; read: names, short names, UCS-2 units, attributes, raw timestamps, sizes, contents and label vs the builder's ground truth; write: byte-level diff against the pre-image confined to the target's slots / free slots / its FAT entries and clusters / clusters free before / status byte / fs-info, no new structural finding, every other file intact",
-        "grid": "width {12,16,32} x (sector,cluster) {512x1, 512x8, 4096x1, 4096x8 (FAT12); 512x1, 512x8, 4096x1 (FAT16); 512x1 (FAT32)} x FAT copies {1,2,3} x (FAT32: mirrored / mirrored with a stale active-copy number / each active copy, inactive copies scribbled) x FAT32 top nibble {0,0xA} x end-of-chain {lowest,highest} x chain layout {contiguous,reversed,interleaved,through-last-cluster} x status {clean,dirty}; 11 mutations incl. writing until the volume is full; quick tier = a quarter of the grid",
+        "grid": "width {12,16,32} x (sector,cluster) {512x1, 512x8, 4096x1, 4096x8 (FAT12); 512x1, 512x8, 4096x1 (FAT16); 512x1 (FAT32)} x FAT copies {1,2,3} x (FAT32: mirrored / mirrored with a stale active-copy number / each active copy, inactive copies scribbled) x FAT32 top nibble {0,0xA} x end-of-chain {lowest,highest} x chain layout {contiguous,reversed,interleaved,through-last-cluster} x FAT32 free count {stored, unknown} x status {clean,dirty}; FAT32 volumes have 66 600 clusters (cluster numbers above 0xFFFF in the through-last-cluster layout), with 3 FAT copies the information / backup sectors sit at 2 / 9, the live label carries attribute 0x28 in the odd layouts; statistics compared with the generator; 11 mutations incl. writing until the volume is full; quick tier = a quarter of the grid",
         "technique": "exhaustive product grid of builder-made foreign volumes as initial states, depth-1 exploration on the real crate, independent decoder + byte-level diff oracle",
     });
     rep.assumptions = vec!["cluster sizes / copy counts outside the grid are not covered; FAT32 with large clusters is left out because the builder keeps flat images in memory".into()];
